@@ -243,7 +243,7 @@ fn main() {
                 &args.journal,
                 &format!("{}/{}", args.replay_dir, id),
             );
-            c.begin_case(0, m.cpu_budget_s() * 10);
+            c.begin_case(0, m.cpu_budget_s() * 5);
             m.judge_file(&bytes, &mut c);
             c.end_case(0);
             let v = c.violations;
@@ -262,7 +262,7 @@ fn main() {
             let mut m = mon::create(&id, tier, seed, 100).expect("unknown property");
             let mut c = Ctx::new(&id, tier, seed, &args.journal, "/dev/null");
             c.replay_mode = true;
-            c.begin_case(k, m.cpu_budget_s() * 10);
+            c.begin_case(k, m.cpu_budget_s() * 5);
             let input = ctx::unhex(rec["input_hex"].as_str().unwrap_or(""));
             let full = rec["input_len"].as_u64().unwrap_or(0) as usize == input.len();
             if full && m.can_judge_file(&rec) {
